@@ -117,6 +117,10 @@ pub const C05_PAYLOADS: &[Payload] = &[
     e(Det::CacheArrayLength, "length-nested-in-call", Canon, "x < h2(arr.length, a0.length)"),
     e(Det::CacheArrayLength, "other-member", Near, "arr.size"),
     s(Det::CacheArrayLength, "for-condition", Canon, "for (uint i = 0; i < arr.length; i++) { x = 1; }"),
+    s(Det::CacheArrayLength, "for-without-init", Canon, "for (; x < arr.length; x++) { y = 1; }"),
+    s(Det::CacheArrayLength, "for-without-update", Canon, "for (uint i = 0; i < arr.length;) { i++; }"),
+    s(Det::CacheArrayLength, "for-condition-only", Canon, "for (; x < arr.length;) { x++; }"),
+    s(Det::CacheArrayLength, "for-empty-body", Canon, "for (uint i = 0; i < arr.length; i++) {}"),
     s(Det::CacheArrayLength, "for-init-only", Near, "for (uint i = arr.length; i > 0; i--) { x = 1; }"),
     s(Det::CacheArrayLength, "for-update-only", Near, "for (uint i = 0; i < 3; i += arr.length) { x = 1; }"),
     s(Det::CacheArrayLength, "for-body-only", Near, "for (uint i = 0; i < 3; i++) { x = arr.length; }"),
@@ -382,6 +386,13 @@ pub fn shift_math_family() -> Vec<Case> {
     }
     for k in 0..=300u32 {
         push("power-of-two-with-leading-zeros", Canon, k, k as usize, &format!("00{}", pows[k as usize]));
+    }
+    // not an integer: a negative exponent strips digits that are not all zero (2.5, 4.05, 8.50, ...)
+    for k in 0..=300u32 {
+        let d = (k % 9) + 1;
+        for (j, tail) in [format!("{}", d), format!("0{}", d), format!("{}0", d), format!("00{}", d)].iter().enumerate() {
+            push("power-of-two-with-stripped-nonzero-digits", Near, k, k as usize + j, &format!("{}{}e-{}", pows[k as usize], tail, tail.len()));
+        }
     }
     out
 }
